@@ -5,7 +5,7 @@
 (* caller that owns a same-named local, or through a plain caller; interleaved *)
 (* with assignments by the owner.  A state is a history of operations; every   *)
 (* history is emitted as a program.                                            *)
-EXTENDS Ast, TLC, Json
+EXTENDS Ast, TLC, Json, IOUtils
 
 CONSTANT MaxLen
 
@@ -59,5 +59,9 @@ OpStmt(o) ==
 Body(h) == Prologue \o [k \in 1..Len(h) |-> OpStmt(h[k])] \o <<Print(V("x"))>>
 Prog(h) == [body |-> Body(h)]
 
+EmitLight == hist # <<>> => PrintT("CASE " \o ToJson([hist |-> hist]))
+Selected == ndJsonDeserialize(IOEnv.SELECT)
+InitSel == \E k \in 1..Len(Selected) : hist = Selected[k].hist
+Stutter == UNCHANGED hist
 EmitCase == hist # <<>> => PrintT("CASE " \o ToJson([hist |-> hist, prog |-> Prog(hist)]))
 =============================================================================
